@@ -123,7 +123,12 @@ func runStatus(raw []byte) (stOut, error) {
 	b, _ := decodeObj(raw)
 	r1 := callCompute(a)
 	r2 := callCompute(a)
-	o := stOut{Conds: [][3]string{}, Unchanged: reflect.DeepEqual(a, b), Pure: sameCall(r1, r2)}
+	// equal answers for equal inputs: a few more calls, so that an answer that depends on Go map iteration order shows
+	pure := sameCall(r1, r2)
+	for k := 0; k < 3 && pure; k++ {
+		pure = sameCall(r1, callCompute(a))
+	}
+	o := stOut{Conds: [][3]string{}, Unchanged: reflect.DeepEqual(a, b), Pure: pure}
 	switch {
 	case r1.panic:
 		o.Panic, o.Msg = true, r1.pmsg
@@ -431,7 +436,7 @@ var podPhases = []string{"-", "", "Pending", "Running", "Succeeded", "Failed", "
 
 var podGrid = kindGrid{
 	name:    "Pod",
-	radices: []int{8, 4, 5, 10, 3},
+	radices: []int{8, 4, 5, 12, 3},
 	build: func(d []int) M {
 		m := mk("v1", "Pod")
 		if ph := podPhases[d[0]]; ph != "-" {
@@ -476,6 +481,12 @@ var podGrid = kindGrid{
 			setp(m, L{cstatus("a", M{})}, "status", "containerStatuses")
 		case 9:
 			setp(m, L{cstatus("a", M{"waiting": M{}})}, "status", "containerStatuses")
+		case 10: // several crash-looping containers: the message lists them in containerStatuses order, every time
+			setp(m, L{cstatus("nginx", waiting("CrashLoopBackOff")), cstatus("istio-proxy", waiting("CrashLoopBackOff")),
+				cstatus("logshipper", waiting("CrashLoopBackOff"))}, "status", "containerStatuses")
+		case 11:
+			setp(m, L{cstatus("b", waiting("CrashLoopBackOff")), cstatus("s", M{"running": M{}}), cstatus("a", waiting("CrashLoopBackOff")),
+				cstatus("t", M{"terminated": M{"exitCode": int64(0)}}), cstatus("b", waiting("CrashLoopBackOff"))}, "status", "containerStatuses")
 		}
 		switch d[4] {
 		case 1:
